@@ -23,6 +23,16 @@ theorem runFrom_append_one (c : Cfg) (hs : List Hit) (h : Hit) (st : Stats) :
     by_cases h1 : (stepHit c st x).2 = true <;>
       by_cases h2 : (stepHit c (runFrom c (stepHit c st x).1 xs).1 h).2 = true <;> simp [h1, h2]
 
+/-- the sequential run over a concatenation -/
+theorem runFrom_append (c : Cfg) (a b : List Hit) (st : Stats) :
+    runFrom c st (a ++ b) =
+      ((runFrom c (runFrom c st a).1 b).1, (runFrom c st a).2 ++ (runFrom c (runFrom c st a).1 b).2) := by
+  induction a generalizing st with
+  | nil => simp [runFrom]
+  | cons x xs ih =>
+    simp only [List.cons_append, runFrom, ih]
+    by_cases h1 : (stepHit c st x).2 = true <;> simp [h1]
+
 /-- the sequential history the concurrent run has performed so far: the hits in the order their check ran -/
 def ConcT.seq (c : Cfg) (s : ConcT) : Stats × List Int := runFrom c Stats.init s.checked.reverse
 
